@@ -26,6 +26,8 @@ type CreateRaceReq struct {
 
 type CreateRaceScn struct {
 	Exists  bool            `json:"exists,omitempty"` // the name is there already (a file with data, made by nobody's verifier)
+	Mover   bool            `json:"mover,omitempty"`  // one more client RENAMEs a file with data ONTO the name while the (GUARDED, non-writing) creates are in the server
+	MoverUs int             `json:"mover_us,omitempty"`
 	Reqs    []CreateRaceReq `json:"reqs"`
 	Workers int             `json:"workers"`
 	Stalls  []simfs.Fault   `json:"stalls,omitempty"`
@@ -51,6 +53,14 @@ func genCreateRace(r *simrt.Rand) *CreateRaceScn {
 		}
 		sc.Reqs = append(sc.Reqs, q)
 	}
+	if !sc.Exists && r.Pct(30) {
+		// a RENAME onto the name races with GUARDED creates of it: every order of the two leaves the moved file's data
+		// there (create then rename: replaced by it; rename then create: NFS3ERR_EXIST) - no writes, so the verdict is exact
+		sc.Mover, sc.MoverUs = true, []int{0, 0, 30, 300, 2500}[r.Int(5)]
+		for i := range sc.Reqs {
+			sc.Reqs[i].How, sc.Reqs[i].Verf, sc.Reqs[i].Write = 1, 0, 0
+		}
+	}
 	if r.Pct(60) {
 		for i, n := 0, 1+r.Int(2); i < n; i++ {
 			sc.Stalls = append(sc.Stalls, simfs.Fault{Op: []string{"Lstat", "Create", "Chmod", "File.Close", "OpenFile", ""}[r.Int(6)], Nth: 1 + r.Int(10), Kind: "stall",
@@ -75,12 +85,37 @@ func runCreateRace(t *testing.T, sc *SeqScn, trace bool) *Outcome {
 		if d.Exists {
 			w.FS.MustWriteFile("/d/lock", old, 0o644)
 		}
+		moved := PayloadBytes(78, 70)
+		if d.Mover {
+			w.FS.MustWriteFile("/d/src", moved, 0o644)
+		}
 		opts := SrvCfg{Squash: "none", MaxWorkers: d.Workers, AttrTTLms: 2000, AttrSize: 64}.options()
 		if err := w.Start(opts); err != nil {
 			o.Inconclusive = "start: " + err.Error()
 			return
 		}
 		defer w.Stop()
+		var mover *Client
+		var moverDir []byte
+		if d.Mover {
+			cl, err := w.Dial("10.0.2.99:799", RootCred, nil)
+			if err != nil {
+				o.Inconclusive = "dial: " + err.Error()
+				return
+			}
+			defer cl.Close()
+			root, _, err := cl.Mount("/")
+			if err != nil || root == nil {
+				o.Inconclusive = fmt.Sprintf("mount: %v", err)
+				return
+			}
+			dl, err := cl.Lookup(root, "d")
+			if err != nil || dl == nil || dl.Status != 0 {
+				o.Inconclusive = fmt.Sprintf("lookup d: %v", err)
+				return
+			}
+			mover, moverDir = cl, dl.FH
+		}
 		type rc struct {
 			cl  *Client
 			dir []byte
@@ -136,11 +171,28 @@ func runCreateRace(t *testing.T, sc *SeqScn, trace bool) *Outcome {
 				simrt.Send("create.done", done, oc)
 			})
 		}
+		moveDone := make(chan uint32, 1)
+		if d.Mover {
+			simrt.Go("rename-client", func() {
+				simrt.Sleep(time.Duration(d.MoverUs) * time.Microsecond)
+				st := uint32(0xffffffff)
+				if r0, _, err := mover.NFS(nfsclient.NFSProcRename, nfsclient.ArgsRename(moverDir, "src", moverDir, "lock")); err == nil && r0 != nil {
+					st = r0.(*nfsclient.RenameRes).Status
+				}
+				simrt.Send("rename.done", moveDone, st)
+			})
+		}
 		outs := make([]outc, len(d.Reqs))
 		for range d.Reqs {
 			oc := simrt.Recv("create.wait", done)
 			outs[oc.i] = oc
 			simrt.Event("create %d: how=%d status=%d err=%v", oc.i, d.Reqs[oc.i].How, oc.status, oc.err)
+		}
+		movedStatus := uint32(0xffffffff)
+		if d.Mover {
+			movedStatus = simrt.Recv("rename.wait", moveDone)
+			simrt.Event("rename onto the name: status=%d", movedStatus)
+			simrt.Probe("c03.rename_onto_name_while_creating")
 		}
 		o.NonTrivial = true
 		var okG, okX []int
@@ -176,6 +228,15 @@ func runCreateRace(t *testing.T, sc *SeqScn, trace bool) *Outcome {
 		// create may legitimately come first); what is judged: no request sets a size, so the final content is the
 		// old content (if the name existed) overlaid with the acknowledged writes in some order - never shorter
 		// than the longest acknowledged write or the old content, unless the file was created anew over it
+		if d.Mover && movedStatus == 0 {
+			// the RENAME was carried out: before it or after it a GUARDED create changes nothing of the moved file
+			// (after it the name exists: NFS3ERR_EXIST, "leaves the existing object untouched"; before it the created
+			// file is what the RENAME replaces), and nobody writes or sets a size
+			o.Tick()
+			if b, ok := w.FS.ReadAll("/d/lock"); !ok || string(b) != string(moved) {
+				o.Vio("C03.existing-data-destroyed", "class=concurrent-create,rename-onto-name", "a RENAME that put a file of %d bytes at the name was answered NFS3_OK while GUARDED creates of the name (answered OK: %v) were in the server; nobody writes or sets a size, yet the name now holds %d bytes (present=%v): a create that had found the name absent created it anew over the moved file", len(moved), okG, len(b), ok)
+			}
+		}
 		if b, ok := w.FS.ReadAll("/d/lock"); ok {
 			o.Tick()
 			if d.Exists {
@@ -248,6 +309,11 @@ func shrinkCreateRace(sc *SeqScn) []any {
 	if d.Workers > 2 {
 		c, nd := cp()
 		nd.Workers = 2
+		out = append(out, c)
+	}
+	if d.MoverUs != 0 {
+		c, nd := cp()
+		nd.MoverUs = 0
 		out = append(out, c)
 	}
 	return out
